@@ -85,6 +85,11 @@ where
     }
 
     pub fn get(&self, idx: usize) -> Result<T, ReadError> {
+        // Without this check an array of zero-sized items (`len() == 0`)
+        // would return an item for every index.
+        if idx >= self.len {
+            return Err(ReadError::OutOfBounds);
+        }
         let item_start = idx
             .checked_mul(self.item_len)
             .ok_or(ReadError::OutOfBounds)?;
@@ -169,5 +174,31 @@ impl<'a, T: AnyBitPattern + FixedSize> FontReadWithArgs<'a> for &'a [T] {
             .checked_mul(T::RAW_BYTE_LEN)
             .ok_or(ReadError::OutOfBounds)?;
         data.read_array(0..len)
+    }
+}
+
+#[cfg(test)]
+mod tests {
+    use super::*;
+    use crate::tables::variations::Tuple;
+
+    /// An array whose items have a computed size of zero has `len() == 0`;
+    /// `get` used to return an (empty) item for every index, so a loop that
+    /// indexes until the first error never ended.
+    #[test]
+    fn computed_array_get_honours_len() {
+        let data = FontData::new(&[0u8; 7]);
+        // axis count 0: zero-sized tuples
+        let array = ComputedArray::<Tuple>::new(data, 0).unwrap();
+        assert_eq!(array.len(), 0);
+        assert!(array.get(0).is_err());
+        assert!(array.get(usize::MAX).is_err());
+        assert_eq!(array.iter().count(), 0);
+        // axis count 1: three whole items, one trailing byte
+        let array = ComputedArray::<Tuple>::new(data, 1).unwrap();
+        assert_eq!(array.len(), 3);
+        assert!(array.get(2).is_ok());
+        assert!(array.get(3).is_err());
+        assert_eq!(array.iter().count(), 3);
     }
 }
